@@ -596,7 +596,7 @@ func (o *origin) RoundTrip(req *http.Request) (*http.Response, error) {
 	}
 	call := &Call{
 		Serial: serial, Ex: exIdx, Fg: fg, Gid: g, StartNs: w.now(), StartSeq: w.seq.Add(1),
-		Method: req.Method, URL: req.URL.String(), Header: req.Header.Clone(), Cond: cond,
+		Method: req.Method, URL: req.URL.String(), Header: canonicalHeader(req.Header), Cond: cond,
 		Reply: rp, Kind: rp.Kind, CtxDoneNs: -1, FailAt: rp.Body.FailAt,
 	}
 	if dl, ok := req.Context().Deadline(); ok {
@@ -754,6 +754,22 @@ type reqSnapshot struct {
 	HdrPtr string
 	Ctx    context.Context
 	Body   io.ReadCloser
+}
+
+// canonicalHeader copies a header map, filing every field under its canonical name (what
+// the receiving end of a connection would see).
+func canonicalHeader(h http.Header) http.Header {
+	out := make(http.Header, len(h))
+	keys := make([]string, 0, len(h))
+	for k := range h {
+		keys = append(keys, k)
+	}
+	sort.Strings(keys)
+	for _, k := range keys {
+		ck := http.CanonicalHeaderKey(k)
+		out[ck] = append(out[ck], h[k]...)
+	}
+	return out
 }
 
 func snapReq(r *http.Request) reqSnapshot {
@@ -1164,7 +1180,15 @@ func (w *World) doReqMode(rt http.RoundTripper, step int, rq *Req, concurrent bo
 		return cancel
 	}
 	for _, kv := range rq.Header {
+		if strings.HasPrefix(kv[0], "!") {
+			// a key the caller put into the map as it is (not canonical)
+			req.Header[kv[0][1:]] = append(req.Header[kv[0][1:]], SubstBytes(kv[1]))
+			continue
+		}
 		req.Header.Add(kv[0], SubstBytes(kv[1]))
+	}
+	if rq.EmptyMethod {
+		req.Method = ""
 	}
 	ex.req = req
 	ex.reqSnap = snapReq(req)
@@ -1218,6 +1242,13 @@ func (w *World) doReqMode(rt http.RoundTripper, step int, rq *Req, concurrent bo
 		resp.Header.Del("Etag")
 		resp.Header.Add("Cache-Control", "caller-owned")
 		resp.Header["Date"] = []string{"scribbled"}
+		for k, vs := range resp.Header {
+			if k != "X-Tok" {
+				for i := range vs {
+					vs[i] = "caller-owned" // in place: the value slices are the caller's as well
+				}
+			}
+		}
 	}
 	if rq.LateBodyNs > 0 {
 		time.Sleep(time.Duration(rq.LateBodyNs))
@@ -1246,9 +1277,22 @@ func (w *World) doReqMode(rt http.RoundTripper, step int, rq *Req, concurrent bo
 	ex.Resp = ro
 	if rq.ReuseReq {
 		// the body is closed: the caller may now reuse / modify its request
+		if rq.ReuseDelayNs > 0 {
+			time.Sleep(time.Duration(rq.ReuseDelayNs))
+		}
 		ex.ReqReused = true
+		for _, vs := range req.Header {
+			for i := range vs {
+				vs[i] = "reused" // in place
+			}
+		}
 		req.Header.Set("X-Reused", "1")
 		req.Header.Del("Cache-Control")
+		for _, kv := range rq.ReuseSet {
+			req.Header.Set(kv[0], SubstBytes(kv[1]))
+		}
+		req.URL.Path, req.URL.RawPath, req.URL.RawQuery = "/reused-by-caller", "", "reused=1"
+		req.Method = "REUSED"
 		if rq.Scribble {
 			for i := 0; i < 3; i++ {
 				resp.Header.Set("X-Scribble-Late", strconv.Itoa(i))
